@@ -39,7 +39,7 @@ prop("C17", True, "seqmc", "exploration", "bounded-exhaustive enumeration of add
      TRUST + "Zones compared by interface index on this host; the live clause (RemoteAddr/LocalAddr at every callback under churn) is decided by the scheduler-based engine unit when present in the evidence.", "DESIGN.md §5/C17")
 
 prop("C03", True, "sched", MC, "stateless model checking (preemption-bounded DFS under a cooperative scheduler) of the real poller and task queues on real epoll/eventfd",
-     "Every interleaving with <= 2 (quick) / 3 (thorough) preemptions of one polling loop and 1..3 producers calling Trigger on the real netpoll.Poller (default and poll_opt), scheduling points at every atomic, queue operation, eventfd read/write and epoll_wait; at quiescence every accepted task has run exactly once on the loop thread, in issue order for one producer's high-priority tasks, and the loop is still wakeable.",
+     "Every interleaving with <= 2 (quick) / 3 (thorough) preemptions of one polling loop and 1..3 producers calling Trigger on the real netpoll.Poller (default and poll_opt), scheduling points at every atomic, queue operation, eventfd read/write and epoll_wait; at quiescence every accepted task has run exactly once on the loop thread, in issue order for one producer's high-priority tasks, and the loop is still wakeable; incl. pre-queued backlogs around the 1024/256 thresholds (also with the threshold scaled to 6) and a wake-up eventfd whose counter is saturated (real EAGAIN on the wake-up write).",
      TRUST + "SC interleavings; fairness rotation; kqueue pollers cannot run here. The engine-level seam (AsyncWrite/Wake/Close through the public API) is covered by the engine units when listed in the evidence.", "DESIGN.md §2, §5/C03")
 prop("C13", True, "sched", MC, "stateless model checking (preemption-bounded DFS) of the real lock-free queue with brute-force linearizability checking of every history",
      "Every interleaving with <= 3 (quick) / 5 (thorough) preemptions, at single atomic load/CAS granularity, of 9-13 configurations of concurrent Enqueue/Dequeue (incl. a one-element queue and a lagging tail); each complete history checked against the sequential FIFO over all linearisation orders; no loss/duplication after a final drain; Length/IsEmpty at quiescence.",
@@ -53,24 +53,24 @@ prop("C02", True, "sched", MC, "stateless model checking (delay- and deviation-b
      "For each (LT|ET, write program over Write/Writev/ReadFrom+Flush/AsyncWrite/AsyncWritev/OnOpen reply): every schedule within the delay bound x every kernel acceptance pattern (short writes, EAGAIN) within the deviation bound, plus real back-pressure; the peer must receive exactly the accepted payloads contiguous and in effect order, OutboundBuffered accounting against the ledger, nothing stays unsent while the peer reads.",
      ENGINE_NOTE, "DESIGN.md §5/C02")
 prop("C04", True, "sched", MC, "stateless model checking (delay-bounded DFS) of the real engine over a catalogue of connection histories",
-     "26 connection histories (peer close, half close, Close action from OnOpen/OnTraffic/OnClose, async Close/CloseWithCallback/Wake/AsyncWrite racing with closes, EventLoop.Close inside a callback, failing Write, late requests after descriptor re-use, shutdown with open connections, cross-loop closes) x {LT,ET}: per-connection lifecycle monitor, error classification, CountConnections at quiescence, on every explored execution.",
+     "About 30 connection histories (peer close, half close, Close action from OnOpen/OnTraffic/OnClose, async Close/CloseWithCallback/Wake/AsyncWrite racing with closes, EventLoop.Close inside a callback, failing Write, late requests after descriptor re-use, a framework-deferred read (ET chunk limit) meeting descriptor re-use in reactor mode and over TCP with SO_REUSEPORT, shutdown with open connections, cross-loop closes; client side: connected UDP sockets incl. late requests after re-use, two-loop client, failing Enroll) x {LT,ET}: per-connection lifecycle monitor, error classification, CountConnections at quiescence, on every explored execution.",
      ENGINE_NOTE, "DESIGN.md §5/C04")
 prop("C06", True, "sched", MC, "stateless model checking (delay-bounded DFS, virtual time) of the real engine's shutdown paths",
-     "Shutdown requested from every documented source (Engine.Stop, package Stop, Shutdown action from OnOpen/OnTraffic/OnClose/OnTick/OnBoot, Client.Stop) in idle/accepting/pending-output/async-in-flight/ticker/two-listener situations x {LT,ET}: Run returns nil within the step horizon, OnShutdown once, every opened connection closed once before the return, nothing afterwards.",
+     "Shutdown requested from every documented source (Engine.Stop, package Stop, Shutdown action from OnOpen/OnTraffic/OnClose/OnTick/OnBoot, Client.Stop) (also from an OnTraffic that already closed its connection, and from an OnTraffic caused by Wake) in idle/accepting/pending-output/busy-sender/async-in-flight/ticker/two-listener situations, incl. the SO_REUSEPORT mode's ticker (UDP listener), x {LT,ET}: Run returns nil within the step horizon, OnShutdown once, every opened connection closed once before the return, nothing afterwards.",
      ENGINE_NOTE + "Bounded time = bounded scheduler steps under fairness; virtual clock.", "DESIGN.md §5/C06")
 prop("C07", True, "sched", MC, "stateless model checking (delay-bounded DFS) of the real engine with a descriptor ledger in the system-call shim as oracle",
      "The C04 histories and the C06 shutdown scenarios evaluated with the ledger: ownership of every fd number, framework calls on closed/foreign descriptors, double close, leaks at the return of Run, unix-socket file removal.",
      ENGINE_NOTE + "Descriptors created by package net are outside the ledger.", "DESIGN.md §5/C07")
 
 prop("C18", True, "sched", "fault_enumeration", "exhaustive fault enumeration (every call index of every I/O-path system-call site x errno menu) on the real engine under the cooperative scheduler",
-     "Two checked echo connections and a liveness probe x {LT,ET} x {small, ring-crossing payloads}: all single faults, all pairs of faults and all single faults combined with one schedule deviation (quick), two schedule deviations (thorough); only the victim may be affected, exactly one OnClose with a non-nil error iff opened, descriptor released, engine keeps serving, retryable errors invisible.",
+     "Two checked echo connections and a liveness probe x {LT,ET} x {small, ring-crossing payloads}: all single faults, all pairs of faults and all single faults combined with one schedule deviation (quick), two schedule deviations (thorough); only the victim may be affected, exactly one OnClose with a non-nil error iff opened, descriptor released, engine keeps serving, retryable errors invisible. Plus: start-up resource exhaustion (epoll_create1/eventfd/registration failing), transient accept errors in SO_REUSEPORT mode (TCP), closing a connection whose socket is really full (persistent EAGAIN) while a bystander must be served, and a failing registration in Client.Enroll.",
      ENGINE_NOTE + "Errno menu per site is an assumption listed in the evidence; eventfd/listener registration faults are not injected.", "DESIGN.md §5/C18")
 prop("C19", True, "sched", MC, "stateless model checking (delay- and deviation-bounded DFS) of the control API against a reference state machine",
-     "Zero Engine handle; sequences of control calls from a 10-call alphabet while running, racing with shutdown (second thread) and after shutdown; Stop(live ctx) nil only when the ledger shows pollers/listeners closed; Stop(cancelled ctx) returns the context error and the shutdown still completes; second Stop harmless; Register delivers exactly one result; Register with an injected epoll_ctl(ADD) failure delivers an error.",
+     "Zero Engine handle; sequences of control calls from a 10-call alphabet while running, racing with shutdown (second thread) and after shutdown; Stop(live ctx) nil only when the ledger shows pollers/listeners closed; Stop(cancelled ctx) returns the context error and the shutdown still completes; second Stop harmless; Register delivers exactly one result; Register and Client.Enroll with an injected epoll_ctl(ADD) failure deliver an error, close the duplicate once and leave the engine/client serving.",
      ENGINE_NOTE, "DESIGN.md §5/C19")
 
 prop("C05", True, "sched", MC, "stateless model checking of the -race build with race-detector-invisible (futex, //go:norace) scheduler hand-offs: the Go race detector is a per-schedule oracle inside an exhaustive schedule enumeration",
-     "12 scenarios of user goroutines calling the documented concurrency-safe API (AsyncWrite/AsyncWritev/Wake/Close/CloseWithCallback/SafeContext/SetSafeContext/Fd/Dup/socket options/Execute/Register/CountConnections/Stop) against accept, traffic, close, tick, engine start and stop x {LT,ET}: every schedule within the delay bound is judged by the race detector on gnet's own happens-before relation and by a confinement monitor (one thread per loop, no overlapping callbacks).",
+     "16 scenarios of user goroutines calling the documented concurrency-safe API (AsyncWrite/AsyncWritev/Wake/Close/CloseWithCallback/SafeContext/SetSafeContext/Fd/Dup/socket options/Execute/Register/CountConnections/Stop) against accept, traffic, close, tick, engine start and stop x {LT,ET}: every schedule within the delay bound is judged by the race detector on gnet's own happens-before relation and by a confinement monitor (one thread per loop, no overlapping callbacks); the same scenarios on the poll_opt and gc_opt builds (-race too), incl. CountConnections racing with the close of the older of two connections and a failing registration travelling back to the Register caller; a non-race unit checks one-thread-per-loop for a two-loop server with cross-loop closes and a two-loop client with concurrent Enroll calls.",
      ENGINE_NOTE + "Races are found between accesses executed in explored schedules; the detector's shadow memory keeps a bounded history; self-test control: MC_C05_CONTROL=1 (non-safe SetContext from another goroutine) must be reported.", "DESIGN.md §2.1, §5/C05")
 prop("C08", True, "sched", MC, "stateless model checking (delay- and deviation-bounded DFS) of the real engine with UDP listeners on loopback, plus a bounded-exhaustive datagram size sweep",
      "IPv4 and IPv6 loopback, 1-2 loops, 1-2 senders x 1-3 datagrams of sizes {0,1,2,5,1023,1024,65507}: every handler consumption/reply choice within the deviation bound and every schedule within the delay bound; one datagram of every size 0..65507 (thorough; every 97th quick); exactly one OnTraffic per datagram with exactly its payload and the sender's address, each reply exactly one datagram at the addressed socket.",
